@@ -19,6 +19,7 @@ import (
 	"time"
 
 	"github.com/hashicorp/nodeenrollment"
+	nodenet "github.com/hashicorp/nodeenrollment/net"
 	"github.com/hashicorp/nodeenrollment/protocol"
 	nodetls "github.com/hashicorp/nodeenrollment/tls"
 	"github.com/hashicorp/nodeenrollment/types"
@@ -144,6 +145,114 @@ func metaStateBlindFn(ctx context.Context, st nodeenrollment.Storage, req *types
 		resp.ClientState = nil
 	}
 	return resp, err
+}
+
+// runMetaViaSplit: the application takes its connections from sub-listeners of a split listener, with native
+// connections requested: what such a *protocol.Conn reports is the same metadata (state the node signed, the
+// protocol list it offered minus the certificate preference), also when the node offered names the split
+// listener itself uses for its special sub-listeners.
+func runMetaViaSplit(c *engine.Ctx) {
+	r := c.R
+	s := world.MustServer(world.ServerCfg{Backend: world.Inmem})
+	defer s.Close()
+	er, err := world.Enroll(s, world.FlowAuthorize, false, nil, nil, nil)
+	if err != nil {
+		r.Broken("meta via split: enroll: " + err.Error())
+		return
+	}
+	node := er.Node
+	lw, err := world.NewLW(s, world.LWCfg{BaseTLS: baseTLSConfig(), NoAccept: true})
+	if err != nil {
+		r.Broken("meta via split: listener: " + err.Error())
+		return
+	}
+	defer lw.Close()
+	sl, err := nodenet.NewSplitListener(lw.IL)
+	if err != nil {
+		r.Broken("meta via split: " + err.Error())
+		return
+	}
+	type got struct {
+		from string
+		conn net.Conn
+	}
+	out := make(chan got, 64)
+	for _, name := range []string{nodenet.AuthenticatedNonSpecificNextProto, nodenet.UnauthenticatedNextProto, "svc"} {
+		ln, err := sl.GetListener(name, nodeenrollment.WithNativeConns(true))
+		if err != nil {
+			r.Broken("meta via split: GetListener: " + err.Error())
+			return
+		}
+		go func(name string, ln net.Listener) {
+			for {
+				cn, err := ln.Accept()
+				if err != nil {
+					return
+				}
+				out <- got{name, cn}
+			}
+		}(name, ln)
+	}
+	go func() { _ = sl.Start() }()
+	rng := rand.New(rand.NewSource(c.Rng("meta-split").Int63()))
+	reserved := [][]string{nil, {"svc"}, {"x-one", nodenet.AuthenticatedNonSpecificNextProto}, {nodenet.UnauthenticatedNextProto, "y-two"}, {"a", nodenet.UnauthenticatedNextProto, nodenet.AuthenticatedNonSpecificNextProto, "svc"}, {"unregistered-1", "unregistered-2"}}
+	for rep := 0; rep < c.Pick(1, 6); rep++ {
+		for _, sk := range []string{"absent", "flat", "nested", "8k"} {
+			for ei, extras := range reserved {
+				state := makeState(sk, rng)
+				var opts []nodeenrollment.Option
+				if state != nil {
+					opts = append(opts, nodeenrollment.WithState(state))
+				}
+				if extras != nil {
+					opts = append(opts, nodeenrollment.WithExtraAlpnProtos(extras))
+				}
+				cfgs, err := nodetls.ClientConfigs(s.Ctx, node.Creds, opts...)
+				if err != nil || len(cfgs) == 0 {
+					r.Broken(fmt.Sprintf("meta via split: ClientConfigs: %v", err))
+					return
+				}
+				mc := metaCase{Kind: "honest-via-split-listener", State: sk, Extras: fmt.Sprint(extras), Seed: int64(ei)}
+				raw, err := net.Dial("tcp", lw.Addr)
+				if err != nil {
+					r.Broken("meta via split: dial: " + err.Error())
+					return
+				}
+				_ = raw.SetDeadline(time.Now().Add(30 * time.Second))
+				tc := tls.Client(raw, cfgs[0])
+				herr := tc.Handshake()
+				r.Eval(engine.J(mc), true)
+				var g got
+				select {
+				case g = <-out:
+				case <-time.After(20 * time.Second):
+					raw.Close()
+					r.Count("via_split:not_delivered(handshake error "+fmt.Sprint(herr != nil)+")", 1)
+					continue
+				}
+				pc, ok := g.conn.(*protocol.Conn)
+				switch {
+				case !ok:
+					r.Violation("wrong-conn-type", fmt.Sprintf("sub-listener %q, asked for native connections, handed out %T", g.from, g.conn), mc)
+				default:
+					expected := stripPref(append([]string{}, cfgs[0].NextProtos...))
+					if gotP := pc.ClientNextProtos(); !reflect.DeepEqual(append([]string{}, gotP...), expected) {
+						r.Violation("client-next-protos-differ:via-split-listener", fmt.Sprintf("the connection handed out by sub-listener %q reports %d protocols, the node offered %d besides the certificate preference (extras %v)", g.from, len(gotP), len(expected), extras), map[string]any{"case": mc, "got_head": head(gotP, 6), "expected_head": head(expected, 6)})
+					} else if !stateEqual(pc.ClientState(), state) {
+						r.Violation("client-state-differs:via-split-listener:"+sk, fmt.Sprintf("the connection handed out by sub-listener %q reports a client state that differs from what the node supplied (state kind %s, extras %v)", g.from, sk, extras), mc)
+					} else {
+						r.Count("via_split:metadata_equal", 1)
+						if ei >= 2 && ei <= 4 {
+							r.Count("via_split:metadata_equal:node_offered_a_reserved_name", 1)
+						}
+					}
+				}
+				g.conn.Close()
+				raw.Close()
+			}
+		}
+	}
+	_ = lw.IL.Close()
 }
 
 func newMetaWorld(storage string, wrap ...bool) *metaWorld {
@@ -563,6 +672,9 @@ func runMeta(c *engine.Ctx) engine.Result {
 		}
 		w.close()
 	}
+	runMetaViaSplit(c)
+	r.Require("via_split:metadata_equal", 12)
+	r.Require("via_split:metadata_equal:node_offered_a_reserved_name", 6)
 	r.Require("own_function:no_state_delivered:forged", 2)
 	r.Require("own_function:no_state_delivered:honest", 2)
 	r.Require("authenticated_connections_inspected", 50)
